@@ -92,7 +92,12 @@ def nviol(run):
 
 
 def route():
-    return _ctx.get("route", "ambient")
+    """input-class tag used in mechanism keys: the construction route of the
+    automaton, or 'derived-<op>' for an automaton produced by an operation."""
+    r = _ctx.get("route", "ambient")
+    if ">" in r:
+        return "derived-" + r.rsplit(">", 1)[1]
+    return r
 
 
 def all_str(labels):
